@@ -243,4 +243,28 @@ def compact (S : Snap) (F : Id → Id) (st : State) (B : Nat) : Id → Option Ob
 /-- root slots after `trace_forward_root` / closure 2 -/
 def compactRoots (S : Snap) (F : Id → Id) : List (Option Id) := S.roots.map (Option.map F)
 
+/-! ### MarkCompact's forwarding function: the sliding linear scan
+
+`markcompactspace.rs::calculate_forwarding_pointer`: scan the objects of the space in address order;
+for each marked one: `to_cursor = align_allocation_no_fill(to_cursor, align, offset)` (the model adds
+an arbitrary padding `pad o to_cursor`), the forwarding pointer is `to_cursor` (+ the constant header
+reserve), then `to_cursor += copied_size`.  (One contiguous region; the multi-region case restarts the
+cursor at the next region start, which only increases it.) -/
+
+/-- an object as the linear scan sees it -/
+structure LObj where
+  id : Id
+  addr : Nat
+  size : Nat
+deriving DecidableEq, Repr
+
+/-- forwarding address of object `x` (`none`: not marked / not in the space) -/
+def slideF (marked : Id → Bool) (pad : LObj → Nat → Nat) : Nat → List LObj → Id → Option Nat
+  | _, [], _ => none
+  | cur, o :: rest, x =>
+    if marked o.id then
+      if x = o.id then some (cur + pad o cur)
+      else slideF marked pad (cur + pad o cur + o.size) rest x
+    else slideF marked pad cur rest x
+
 end Mmtk.Trace
